@@ -231,6 +231,9 @@ func main() {
 			case x < 4 && f > 0:
 				oldRows, oldCols := rows, cols
 				rows, cols = 1+r.Intn(maxRows), 1+r.Intn(maxCols)
+				if r.Intn(3) == 0 {
+					rows, cols = oldRows, oldCols // a size report that changes nothing must not cancel or cause anything
+				}
 				fc.SetSize(rows, cols)
 				vx.Resize()
 				byRefresh := r.Intn(2) == 0
